@@ -380,6 +380,11 @@ func runWorker(chk *Check, env *Env, outPath, journalPath string, resumeAfter, o
 	if env.Race {
 		timeout *= 4
 	}
+	// self-test hooks of the framework (never set by registered commands)
+	if ms, err := strconv.Atoi(os.Getenv("VERIF_SELFTEST_TIMEOUT_MS")); err == nil && ms > 0 {
+		timeout = time.Duration(ms) * time.Millisecond
+	}
+	slowIdx, _ := strconv.Atoi(os.Getenv("VERIF_SELFTEST_SLOW_CASE"))
 	var cur struct {
 		sync.Mutex
 		idx   int
@@ -414,6 +419,9 @@ func runWorker(chk *Check, env *Env, outPath, journalPath string, resumeAfter, o
 		cur.Lock()
 		cur.idx, cur.start = idx, time.Now()
 		cur.Unlock()
+		if os.Getenv("VERIF_SELFTEST_SLOW_CASE") != "" && idx == slowIdx && (only < 0 || os.Getenv("VERIF_SELFTEST_SLOW_ALWAYS") != "") {
+			time.Sleep(timeout + 2*time.Second) // simulates a case starved by machine load (or, with SLOW_ALWAYS, a real hang)
+		}
 		func() {
 			defer func() {
 				if x := recover(); x != nil {
@@ -452,6 +460,7 @@ type workerState struct {
 }
 
 var raceReports int
+var extraOuts []string
 
 func runDriver(chk *Check, env *Env, nw int, only int) int {
 	start := time.Now()
@@ -513,8 +522,13 @@ func runDriver(chk *Check, env *Env, nw int, only int) int {
 					return
 				}
 				if hang {
-					if !confirmHang(chk, env, self, idx) {
-						agg.Inconclusive = append(agg.Inconclusive, fmt.Sprintf("watchdog fired on case %d but did not reproduce", idx))
+					mu.Unlock() // the re-test may take minutes: do not block the other workers' bookkeeping
+					confirmed, redo := confirmHang(chk, env, self, idx)
+					mu.Lock()
+					if !confirmed && redo != "" {
+						extraOuts = append(extraOuts, redo) // completed alone: the watchdog firing was load
+					} else if !confirmed {
+						agg.Inconclusive = append(agg.Inconclusive, fmt.Sprintf("watchdog fired on case %d and the re-test neither completed nor hung again", idx))
 					} else {
 						agg.Violations = append(agg.Violations, Violation{Key: "hang:" + ekey, Msg: "case did not complete (reproduced twice in isolation)", Detail: map[string]any{"input": edesc, "stderr": lastLines(tail, 60)}, Idx: idx})
 					}
@@ -554,8 +568,13 @@ func runDriver(chk *Check, env *Env, nw int, only int) int {
 	}
 	wg.Wait()
 	// merge
+	var outs []string
 	for i := 0; i < nw; i++ {
-		f, err := os.Open(filepath.Join(env.Scratch, fmt.Sprintf("w%d.out", i)))
+		outs = append(outs, filepath.Join(env.Scratch, fmt.Sprintf("w%d.out", i)))
+	}
+	outs = append(outs, extraOuts...)
+	for _, path := range outs {
+		f, err := os.Open(path)
 		if err != nil {
 			continue
 		}
@@ -645,17 +664,29 @@ func lastJournal(path string) (idx int, ekey, edesc string, hang bool) {
 	return
 }
 
-func confirmHang(chk *Check, env *Env, self string, idx int) bool {
+// confirmHang re-runs the case alone, twice. If a run completes, the watchdog firing was load, not
+// a hang: the completed run's output file is returned and merged like any worker output.
+func confirmHang(chk *Check, env *Env, self string, idx int) (bool, string) {
 	for try := 0; try < 2; try++ {
 		dir, _ := os.MkdirTemp(env.Scratch, "hang")
-		cmd := exec.Command(self, "--tier", env.Tier, "--worker", "0/1", "--only", strconv.Itoa(idx), "--out", filepath.Join(dir, "o"), "--journal", filepath.Join(dir, "j"))
-		cmd.Env = append(os.Environ(), "VERIF_SEED="+strconv.FormatUint(env.Seed, 10), "VERIF_SCRATCH="+dir)
+		out := filepath.Join(dir, "o")
+		args := []string{"--tier", env.Tier, "--worker", "0/1", "--only", strconv.Itoa(idx), "--out", out, "--journal", filepath.Join(dir, "j")}
+		if env.Asan {
+			args = append(args, "--asan")
+		} else if env.Race {
+			args = append(args, "--race")
+		}
+		cmd := exec.Command(self, args...)
+		cmd.Env = append(os.Environ(), "VERIF_SEED="+strconv.FormatUint(env.Seed, 10), "VERIF_SCRATCH="+dir, "VERIF_TIER="+env.Tier)
 		err := cmd.Run()
 		if ee, ok := err.(*exec.ExitError); !ok || ee.ExitCode() != exitHang {
-			return false
+			if err == nil && workerDone(out) {
+				return false, out
+			}
+			return false, ""
 		}
 	}
-	return true
+	return true, ""
 }
 
 type knownFinding struct{ prop, key, text string }
